@@ -138,3 +138,27 @@ LIB = {
 
 def lib_scope(prop):
     return LIB[prop]
+
+
+def callee_closure(P, scope, tus=None):
+    """The functions `scope` selects plus everything they (transitively) call inside libtskit / kastore: the thorough tier lints
+    the whole code a property executes, not only the functions that implement it by name."""
+    from sa.expr import calls, callee
+    from sa.cfront import LIB_TUS
+    keys = [k for k in (tus or list(P.tus)) if k in P.tus]
+    index = {}
+    for k in keys:
+        for f in P.tus[k].funcs.values():
+            index.setdefault(f.name, (k, f))
+    todo = [(k, f) for k in keys for f in P.tus[k].funcs.values() if scope(k, f.name)]
+    seen = set()
+    while todo:
+        k, f = todo.pop()
+        if (k, f.name) in seen or f.body is None:
+            continue
+        seen.add((k, f.name))
+        for c in calls(f.body):
+            nm = callee(c)
+            if nm in index and (index[nm][0], nm) not in seen:
+                todo.append(index[nm])
+    return lambda k, name: (k, name) in seen
